@@ -28,6 +28,15 @@ func genC18(seed int64, n int) *c18Prog {
 	newName := func(prefix string) string {
 		return fmt.Sprintf("%s%d", prefix, len(p.globals))
 	}
+	if rng.Intn(3) == 0 {
+		// a package clause opens the program (valid in a whole program and in the first chunk)
+		p.stmts = append(p.stmts, "package main", `import "fmt"`)
+		hasFmt = true
+		n += 2
+		if n > 7 {
+			n = 7
+		}
+	}
 	if rng.Intn(4) == 0 {
 		// packages with state: report imports store, so a later chunk importing report loads store again
 		p.stmts = append(p.stmts, `import "store"`, "store.Put(in0)", `import "report"`, "rs := report.Show()")
